@@ -73,4 +73,11 @@ SlicesReassemble(net, sliced) ==
             v == ChunkValue(net, sliced, okey)
         IN  \A n \in DOMAIN v :
                 v[n] = FoldSet(LAMBDA i, acc : acc + SliceValue(net, sliced, i)[n], 0, S)
+(* contract_mpi: the slice numbers are dealt out round robin to `nproc` ranks; every slice is computed by exactly one
+   rank (so the sum of the ranks' partial sums is the sum over all slices), provided there are at least nproc slices *)
+RankSlices(n, nproc, r) == {i \in 0..(n - 1) : i % nproc = r}
+RanksPartition(n, nproc) ==
+    /\ UNION {RankSlices(n, nproc, r) : r \in 0..(nproc - 1)} = 0..(n - 1)
+    /\ \A r1, r2 \in 0..(nproc - 1) : r1 # r2 => RankSlices(n, nproc, r1) \cap RankSlices(n, nproc, r2) = {}
+    /\ (n >= nproc => \A r \in 0..(nproc - 1) : RankSlices(n, nproc, r) # {})
 =============================================================================
